@@ -277,6 +277,17 @@ func runCheck(repo, verif, prop, tier string, verbose bool) int {
 			notes[x] = true
 		}
 	}
+	if prop == "C20" {
+		tobls, tnotes := e.taintObligations()
+		all = append(all, tobls...)
+		for _, n := range tnotes {
+			notes[n] = true
+		}
+		if len(tobls) == 0 {
+			undecided = append(undecided, "information-flow analysis found no sink argument to check (vacuity guard)")
+		}
+		perFn["<information flow over all collector functions>"] = len(tobls)
+	}
 	genS := time.Since(t0).Seconds() - loadS
 	timeout := 10
 	cross := false
